@@ -9,6 +9,7 @@ import functools
 import hashlib
 import itertools
 import math
+import re
 
 import numpy as np
 
@@ -137,6 +138,36 @@ def mix(i, p, k, salt=0):
     x = (x * 0x94D049BB133111EB) & 0xFFFFFFFFFFFFFFFF
     x ^= x >> 31
     return x % k
+
+
+# ------------------------------------------------------------------------------------------------- diagram labels
+# labels with underscores and digits in several positions (must never be split at an internal underscore)
+LABEL_POOL = ("ct_a", "sol_1", "diff_b_2", "a_", "x_1_y", "r7", "dl2_3")
+TIKZ_COMPONENT = re.compile(r"to\[([A-Za-z]+)=(\$.*?\$)\]")            # (component kind, full `$...$` label text)
+TIKZ_KIND = {"R": "R", "C": "capacitor", "L": "L", "La": "L", "Q": "cpe"}  # every other symbol is drawn as `generic`
+
+
+def pool_label(i, p, salt=0):
+    """label for leaf position p of case i: distinct for distinct p (the pool is rotated by the case index)"""
+    base = LABEL_POOL[(mix(i, 0, len(LABEL_POOL), salt) + p) % len(LABEL_POOL)]
+    return base if p < len(LABEL_POOL) else f"{base}_{p}"
+
+
+def diagram_label(symbol, text):
+    """the label text the diagrams must carry for an element: `$<symbol>_{\\rm <whole label or identifier>}$`, derived here
+    from (symbol, label-or-identifier) only; the library applies no escaping to the label (circuitikz.py:396-399)"""
+    return "$" + symbol + "_{\\rm " + str(text) + "}$"
+
+
+def label_text_specs():
+    """every pool label on every basic type: alone and mixed with unlabelled / differently labelled elements of the same type"""
+    out = []
+    for k, label in enumerate(LABEL_POOL):
+        other = LABEL_POOL[(k + 3) % len(LABEL_POOL)]
+        for sym in ("R", "C", "L", "Q", "W", "Tlm"):
+            lab, un, oth = E(sym, label=label), E(sym), E(sym, label=other)
+            out += [lab, S(lab, un), P(un, lab), S(un, P(lab, oth)), P(S(un, lab), un), S(E("R"), lab, E("C", label=other)), P(un, lab, un, oth)]
+    return out
 
 
 # ------------------------------------------------------------------------------------------------- construction
